@@ -100,9 +100,9 @@ PROPS['C09'] = {
              '(role layout, waited pops, lost-subscribe-race count) of a round.'),
     'min_nontrivial': [200, 2000],
     'require_classes': ['queue_mt:pops_that_waited', 'queue_mt:exceptions_via_unblock'],
-    'single_thread_scenarios': ('queue_history', 'queue_void_history', 'queue_string_values', 'queue_callback_consumer'),
+    'single_thread_scenarios': ('queue_history', 'queue_void_history', 'queue_string_values', 'queue_callback_consumer', 'queue_single_consumer'),
     'jobs': [
-        J('hist_asan', 'c09.cpp', 'asan', [20000, 1000000], scenario='queue_history,queue_void_history,queue_string_values,queue_callback_consumer', threads=1),
+        J('hist_asan', 'c09.cpp', 'asan', [20000, 1000000], scenario='queue_history,queue_void_history,queue_string_values,queue_callback_consumer,queue_single_consumer', threads=1),
         J('mt_asan', 'c09.cpp', 'asan', [30000, 1500000], scenario='queue_mt,queue_unblock_contended', threads=6),
         J('mt_rel', 'c09.cpp', 'rel', [200000, 10000000], scenario='queue_mt,queue_unblock_contended', threads=6),
         J('mt_crel', 'c09.cpp', 'crel', [0, 4000000], scenario='queue_mt', threads=6, tiers=(T,)),
@@ -172,11 +172,11 @@ PROPS['C17'] = {
              '(roles, parked awaiters, lost-race count).'),
     'min_nontrivial': [200, 2000],
     'require_classes': ['shared_future_mt:awaiters_parked_before_resolution', 'shared_future_mt:awaiters_lost_race_to_ready'],
-    'single_thread_scenarios': ('shared_future_history', 'shared_future_trivial_types', 'shared_future_string_values', 'shared_future_reference_source'),
+    'single_thread_scenarios': ('shared_future_history', 'shared_future_trivial_types', 'shared_future_string_values', 'shared_future_reference_source', 'shared_future_many_awaiters'),
     'jobs': [
         J('hist_asan', 'c17.cpp', 'asan', [30000, 1500000], scenario='shared_future_history', threads=1),
         J('triv_asan', 'c17.cpp', 'asan', [30000, 1500000], scenario='shared_future_trivial_types', threads=1),
-        J('str_asan', 'c17.cpp', 'asan', [20000, 800000], scenario='shared_future_string_values,shared_future_reference_source', threads=1),
+        J('str_asan', 'c17.cpp', 'asan', [20000, 800000], scenario='shared_future_string_values,shared_future_reference_source,shared_future_many_awaiters', threads=1),
         J('mt_asan', 'c17.cpp', 'asan', [40000, 2000000], scenario='shared_future_mt'),
         J('mt_rel', 'c17.cpp', 'rel', [200000, 8000000], scenario='shared_future_mt'),
         J('mt_crel', 'c17.cpp', 'crel', [0, 3000000], scenario='shared_future_mt', tiers=(T,)),
